@@ -326,6 +326,33 @@ LeafBits(t, lo) ==
   ELSE UNION {LET c == Child(t, k) IN IF IsScalar(c.ty) THEN (lo + c.lo) .. (lo + c.lo + c.w - 1) ELSE LeafBits(c.ty, lo + c.lo)
               : k \in 1..(IF Kind(t) = "arr" THEN Ty[t].n ELSE Len(Ty[t].mems))}
 
+\* the same without anything that lies inside a union
+RECURSIVE LeafBitsNU(_, _)
+LeafBitsNU(t, lo) ==
+  IF IsScalar(t) THEN lo .. lo + Ty[t].size * 8 - 1
+  ELSE IF Kind(t) = "union" THEN {}
+  ELSE UNION {LET c == Child(t, k) IN IF IsScalar(c.ty) THEN (lo + c.lo) .. (lo + c.lo + c.w - 1) ELSE LeafBitsNU(c.ty, lo + c.lo)
+              : k \in 1..(IF Kind(t) = "arr" THEN Ty[t].n ELSE Len(Ty[t].mems))}
+(* Bits of an automatic object whose value is determined by the initializer: members outside unions,  *)
+(* and inside a union the member bits of whatever was written there last (padding of automatic        *)
+(* objects, and of the member a union currently holds, is unspecified).                               *)
+MemberBitsOf(w) == CASE w.k = "agg" -> LeafBits("P", w.lo)
+                     [] w.k = "zero" -> LeafBits(w.lt, w.lo)
+                     [] OTHER -> w.lo .. w.lo + w.n - 1
+RECURSIVE OwnerOf(_, _, _)
+OwnerOf(ws, b, i) == IF i = 0 THEN 0 ELSE IF b >= ws[i].lo /\ b < ws[i].lo + ws[i].n THEN i ELSE OwnerOf(ws, b, i - 1)
+AutoMask(D, size) ==
+  LET all == 0..size * 8 - 1
+      nu  == IF IsIncT(top) THEN all ELSE LeafBitsNU(top, 0)
+      inu == (IF IsIncT(top) THEN {} ELSE LeafBits(top, 0)) \ nu
+      \* the member a union holds at the end: the one named by the last write that went through it
+      RECURSIVE LastChoice(_, _)
+      LastChoice(u, i) == IF i = 0 THEN 0
+                          ELSE LET S == {k \in 1..Len(D.w[i].un) : D.w[i].un[k].lo = u.lo /\ D.w[i].un[k].n = u.n}
+                               IN IF S # {} THEN D.w[i].un[CHOOSE k \in S : TRUE].m ELSE LastChoice(u, i - 1)
+      current(w) == \A k \in 1..Len(w.un) : LastChoice(w.un[k], Len(D.w)) = w.un[k].m
+  IN nu \cup {b \in inu : LET o == OwnerOf(D.w, b, Len(D.w)) IN o # 0 /\ b \in MemberBitsOf(D.w[o]) /\ current(D.w[o])}
+
 (* ====================================================================== *)
 (* Part 3: the cursor machine of init.c.                                   *)
 (* p = [obj, cur, sub, list, last, tsz, inc, indes, fired, st]              *)
@@ -795,13 +822,13 @@ Verdict ==
       fi   == FuncInit(p.list, ObjSize, Ty[top].align)
       all  == 0..size * 8 - 1
       leafs == LeafBits(top, 0) \cap all
-      lmask == IF IsIncT(top) THEN all ELSE leafs       \* arrays of scalars have no padding
+      lmask == AutoMask(D, size)
       fired == p.fired \cup ed.fired
       sok  == /\ p.st = "done" /\ ObjSize = size /\ ~ed.abort
               /\ Agrees(ed.bytes, ed.rel, img, alt, size, all)
       aok  == /\ p.st = "done" /\ ObjSize = size
               /\ Agrees(fi.bytes, fi.rel, img, alt, size, lmask)
-  IN [ok |-> D.ok, D |-> D, size |-> size, img |-> img, alt |-> alt, hasagg |-> hasagg, ed |-> ed, fi |-> fi,
+  IN [ok |-> D.ok, D |-> D, size |-> size, img |-> img, alt |-> alt, hasagg |-> hasagg, ed |-> ed, fi |-> fi, lmask |-> lmask,
       sok |-> hasagg \/ sok, aok |-> aok, sfired |-> fired, afired |-> p.fired \cup fi.fired]
 
 Terminal == pc \in {"done", "err", "undef"}
@@ -835,7 +862,6 @@ Emit ==
           \* per byte: mask of the bits on which the two readings of the standard differ (not compared)
           um == [k \in 1..v.size |-> LET d(i) == IF v.img.bit[8 * (k - 1) + i] # v.alt.bit[8 * (k - 1) + i] THEN 1 ELSE 0
                                      IN d(0) + 2*d(1) + 4*d(2) + 8*d(3) + 16*d(4) + 32*d(5) + 64*d(6) + 128*d(7)]
-          pad == {k \in 0..v.size - 1 : \A i \in 0..7 : (8 * k + i) \notin LeafBits(top, 0)}
           same == v.alt = v.img
       IN PrintT("VCASE " \o ToJson([
            ty |-> top, toks |-> [i \in 1..Len(toks) |-> TokStr(toks[i])], size |-> v.size,
@@ -843,12 +869,15 @@ Emit ==
            unc |-> IF same THEN <<>> ELSE um,
            optrel |-> IF same THEN <<>> ELSE RelOut((v.img.rel \cup v.alt.rel) \ (v.img.rel \cap v.alt.rel)),
            ex |-> [i \in 1..Len(v.D.w) |-> [tp |-> v.D.w[i].tp, lt |-> v.D.w[i].lt, c |-> ExprC(v.D.w[i])]],
-           agg |-> v.hasagg, pad |-> IF IsIncT(top) THEN {} ELSE pad,
+           agg |-> v.hasagg,
+           am |-> [k \in 1..v.size |-> LET d(i) == IF (8 * (k - 1) + i) \in v.lmask THEN 1 ELSE 0
+                                       IN d(0) + 2*d(1) + 4*d(2) + 8*d(3) + 16*d(4) + 32*d(5) + 64*d(6) + 128*d(7)],
            mst |-> IF p.st # "done" THEN p.st ELSE IF v.ed.abort THEN "abort" ELSE "ok",
            sfired |-> v.sfired, afired |-> v.afired, tr |-> p.tr,
            mimg |-> IF v.sok \/ p.st # "done" \/ v.ed.abort THEN <<>> ELSE v.ed.bytes,
            mrel |-> IF v.sok \/ p.st # "done" \/ v.ed.abort THEN <<>> ELSE RelOut(v.ed.rel),
            fimg |-> IF v.aok \/ p.st # "done" THEN <<>> ELSE v.fi.bytes,
+           frel |-> IF v.aok \/ p.st # "done" THEN <<>> ELSE RelOut(v.fi.rel),
            sok |-> v.sok, aok |-> v.aok]))
 
 \* tables the harness needs (types for rendering and for the gcc audit, value tables)
